@@ -201,6 +201,28 @@ func isNilFunc(v value) bool {
 }
 
 func registerReflectIntrinsics(e *Engine) {
+	for _, pre := range []string{"reflect.", "(reflect.", "(*reflect.", "internal/reflectlite.", "(internal/reflectlite.", "(*internal/reflectlite.", "internal/abi.", "(*internal/abi."} {
+		e.regPrefix(pre, func(fr *frame, args []value) value {
+			panic(unsupported("reflection is not modelled: " + fr.fn.String()))
+		})
+	}
+	e.reg("context.WithValue", func(fr *frame, args []value) value {
+		i := fr.i
+		parent := args[0].(iface)
+		if parent.t == nil {
+			panic(targetPanic{"cannot create context from nil parent"})
+		}
+		key := args[1].(iface)
+		if key.t == nil {
+			panic(targetPanic{"nil key"})
+		}
+		if !types.Comparable(key.t) {
+			panic(targetPanic{"key is not comparable"})
+		}
+		t := i.namedType("context", "valueCtx")
+		var cell value = structure{parent, key, args[2]}
+		return iface{t: types.NewPointer(t), v: &cell}
+	})
 	de := func(mode deepMode) intrinsic {
 		return func(fr *frame, args []value) value {
 			a, b := args[len(args)-2].(iface), args[len(args)-1].(iface)
